@@ -16,6 +16,7 @@ import (
 // C06 — Mkdir creates exactly the tree: right paths, right kinds, nothing else (set algebra on snapshots).
 
 type c06Case struct {
+	Order int `json:"order,omitempty"` // ops.Opts.OptOrder: the option list rotated by Order/2 and reversed when odd
 	Forest  model.Forest `json:"forest"` // distinct root names, valid path elements
 	Exts    []string     `json:"exts"`
 	HasExts bool         `json:"hasExts,omitempty"`
@@ -89,6 +90,7 @@ func c06Check(c c06Case) string {
 		cs.PreOps = c.PreOps
 	}
 	cs.Opts.Exts = c.Exts
+	cs.Opts.OptOrder = c.Order
 	cs.Opts.HasExts = c.HasExts
 	cs.Opts.Massive = c.Massive
 	cs.Opts.TargetOpt = c.Target
@@ -296,7 +298,7 @@ func c06Record(col *collector, c c06Case) {
 		cl = append(cl, "target:"+c.Target)
 	}
 	nontrivial := (files >= 1 && dirLeaves >= 1 && model.Merge(f).Depth() >= 2) || len(c.PreRoot) > 0 || c.Refusal != "" || c.Inodes > 0
-	col.eval(nontrivial, hash64(fmt.Sprint(f, c.Exts, c.HasExts, c.Entry, c.Massive, c.State, c.PreRoot, c.Refusal, c.LongAt, c.Target, c.PreOps, c.Inodes, c.Mode, c.Early)), cl...)
+	col.eval(nontrivial, hash64(fmt.Sprint(f, c.Exts, c.HasExts, c.Entry, c.Massive, c.State, c.PreRoot, c.Refusal, c.LongAt, c.Target, c.PreOps, c.Inodes, c.Mode, c.Early, c.Order)), cl...)
 	col.sample(func() any { return c })
 }
 
@@ -334,6 +336,7 @@ func c06Gen() *rapid.Generator[c06Case] {
 		}
 		c := c06Case{Forest: f, Entry: entry, Exts: genExts(extSources(f)).Draw(t, "exts")}
 		c.HasExts = rapid.Bool().Draw(t, "hasExts")
+		c.Order = rapid.IntRange(0, 9).Draw(t, "optOrder")
 		if entry == "root" && rapid.Bool().Draw(t, "withPreOps") {
 			c.PreOps = rapid.SliceOfN(rapid.SampledFrom(preOpPool), 1, 2).Draw(t, "preOps")
 		}
